@@ -588,19 +588,22 @@ func (p *declProg) modelOrder(resp string) (resolvable bool, vars []string, ok b
 // times in this process.
 func declStream(c *hx.Ctx, dupActive bool, report func(in *input, a, b digest, where string)) error {
 	res := c.Res
+	// a generator of its own (keyed by the seed): the streams that were there before draw what
+	// they drew before
+	r := proto.NewRand(proto.NewRand(c.Seed ^ 0xdec1).U64())
 	predicted, cameTrue := 0, 0
 	var firstMiss *input
 	t0 := time.Now()
-	repeat := c.N(64, 256)
+	repeat := c.N(64, 128)
 	progs := declMatrix()
-	for i := 0; i < c.N(150, 3000); i++ {
-		progs = append(progs, randomDeclProg(c.R, false))
+	for i := 0; i < c.N(150, 1500); i++ {
+		progs = append(progs, randomDeclProg(r, false))
 	}
-	for i := 0; i < c.N(60, 1000); i++ {
-		progs = append(progs, randomDeclProg(c.R, true))
+	for i := 0; i < c.N(60, 500); i++ {
+		progs = append(progs, randomDeclProg(r, true))
 	}
-	for i := 0; i < c.N(60, 600); i++ {
-		progs = append(progs, dupAround(c.R))
+	for i := 0; i < c.N(60, 400); i++ {
+		progs = append(progs, dupAround(r))
 	}
 	var lines []string
 	for _, p := range progs {
